@@ -492,6 +492,18 @@ impl Domain for RpcDomain {
         match t[0] {
             // ---- C12, byte level (compared with the Lean model)
             "crc" => crc32fast::hash(&unhex(t[1])).to_string(),
+            "alignof" => {
+                // alignof <type>: the alignment the archived root of the type needs (the model has a table)
+                let a = match t[1] {
+                    "M1" => std::mem::align_of::<rkyv::Archived<M1>>(),
+                    "M2" => std::mem::align_of::<rkyv::Archived<M2>>(),
+                    "Big" => std::mem::align_of::<rkyv::Archived<Big>>(),
+                    "Status" => std::mem::align_of::<rkyv::Archived<Status>>(),
+                    "Payload" => std::mem::align_of::<rkyv::Archived<Payload>>(),
+                    _ => 0,
+                };
+                format!("align {}", a)
+            },
             "check" => {
                 // check <type> <fixed> <hexframe>
                 let fixed = p_u64(t[2]) as usize;
